@@ -5,8 +5,12 @@ package main
 // public API.
 
 import (
+	"bytes"
+	"encoding/gob"
+	"errors"
 	"fmt"
 	"os"
+	"strings"
 	"time"
 
 	badgerdb "github.com/dgraph-io/badger/v2"
@@ -37,11 +41,49 @@ type World struct {
 	resets int
 }
 
+// prodOptions: exactly what pool.go passes (badger.DefaultOptions); otherwise
+// synchronous writes are switched off to make the long sequential runs fast.
+var prodOptions = os.Getenv("VIP_BADGER_PROD") == "1"
+
 func openBadger(dir string) (store.Store, error) {
 	opts := badgerdb.DefaultOptions(dir)
 	opts.Logger = nil
-	opts.SyncWrites = false
+	if !prodOptions {
+		opts.SyncWrites = false
+	}
 	return badger.Open(opts)
+}
+
+// downgrade rewrites the on-disk format version marker of a closed badger
+// directory (0 = no marker) and plants a legacy nonce record without TTL.
+func downgrade(dir string, version int) error {
+	opts := badgerdb.DefaultOptions(dir)
+	opts.Logger = nil
+	db, err := badgerdb.Open(opts)
+	if err != nil {
+		return err
+	}
+	defer db.Close()
+	return db.Update(func(txn *badgerdb.Txn) error {
+		key := []byte("vip:version")
+		if version == 0 {
+			if err := txn.Delete(key); err != nil {
+				return err
+			}
+		} else {
+			var buf bytes.Buffer
+			if err := gob.NewEncoder(&buf).Encode(&version); err != nil {
+				return err
+			}
+			if err := txn.Set(key, buf.Bytes()); err != nil {
+				return err
+			}
+		}
+		var buf bytes.Buffer
+		legacy := int64(12345)
+		gob.NewEncoder(&buf).Encode(&legacy)
+		return txn.Set([]byte("vip:nonce:legacy-identity"), buf.Bytes())
+	})
 }
 
 func (w *World) openStore(fresh bool) error {
@@ -82,6 +124,7 @@ func (w *World) reset(op J) error {
 	w.cfg = op
 	w.nodeNames = strs(op, "nodes")
 	w.acctNames = strs(op, "accts")
+	w.registerNames()
 	unit := str(op, "unit")
 	if unit == "" {
 		unit = "1"
@@ -96,6 +139,16 @@ func (w *World) reset(op J) error {
 		}
 	}
 	return nil
+}
+
+// registerNames makes every identity of the alphabets known, so that concrete
+// ids read back from the store map to their abstract names in any process.
+func (w *World) registerNames() {
+	for _, n := range append(append([]string{}, w.nodeNames...), w.acctNames...) {
+		if n != "" && !strings.HasPrefix(n, "raw:") {
+			w.names.get(baseName(n))
+		}
+	}
 }
 
 func storeErr(err error) string {
@@ -254,6 +307,24 @@ func (w *World) storeOp(op J) (J, error) {
 			return res(err, nil), nil
 		}
 		return res(nil, w.statsRec(st)), nil
+	case "Downgrade":
+		// close, rewrite the format version marker, open again (which migrates)
+		if w.driver != "badger" {
+			return res(nil, nil), nil
+		}
+		if err := s.Close(); err != nil {
+			return nil, fmt.Errorf("close: %v", err)
+		}
+		if err := downgrade(w.dir, int(num(op, "v"))); err != nil {
+			return nil, fmt.Errorf("downgrade: %v", err)
+		}
+		if err := w.openStore(false); err != nil {
+			return res(errors.New("open failed: "+err.Error()), nil), nil
+		}
+		if w.pool != nil {
+			w.pool.rebind(w.store)
+		}
+		return res(nil, nil), nil
 	case "Reopen":
 		if w.driver != "badger" {
 			return res(nil, nil), nil
